@@ -61,7 +61,9 @@ Proof. exact parse_explain_gpos. Qed.
 Print Assumptions parse_explain_id_fragment_gpos.
 
 (* the same with GPOS3 lookups (cursive attachment: entry and exit anchors per
-   glyph, one or more subtables) in the list *)
+   glyph, one or more subtables) and GPOS4 lookups (mark-to-base attachment:
+   mark glyphs with class and anchor, base glyphs with one anchor per class;
+   the mark classes are 0..n-1, all used; one or more subtables) in the list *)
 Theorem parse_explain_id_fragment_gpos_all :
   forall (U : uclass) (F : font) (ll : list lookup),
     font_wf U F = true ->
